@@ -324,6 +324,7 @@ def run_check(pid, tier, seed, only=None, jobs=None):
     nproc = jobs or int(os.environ.get("VERIF_JOBS", "0")) or min(16, os.cpu_count() or 4)
     ctx = mp.get_context("fork")
     results = []
+    early_stop_s = float(os.environ.get("VERIF_EARLY_STOP_S", "420" if tier == "quick" else "3000"))
     with ctx.Pool(nproc, maxtasksperchild=8) as pool:
         pending = [pool.apply_async(run_job, ((pid, c, tier, seed),)) for c in allcfg]
         while pending:
@@ -350,6 +351,17 @@ def run_check(pid, tier, seed, only=None, jobs=None):
                         st.get("unknown"), len(shards), r["wall"], (r["error"] or "")[:300]),
                         flush=True)
             pending = still
+            # A tree that breaks the property can make the remaining jobs very slow (path explosion, hard
+            # queries).  Once counterexamples exist and the time budget of the tier is used up, the verdict
+            # does not need the rest: stop, replay what was found.  Never triggers without a counterexample.
+            if pending and time.time() - t0 > early_stop_s and any(
+                    r.get("cex") and not r["cfg"].get("control") and not r.get("error") for r in results):
+                ncex = sum(len(r.get("cex") or []) for r in results if not r["cfg"].get("control"))
+                results.append(dict(name="(early stop)", cfg=dict(name="(early stop)"),
+                                    error="exploration stopped after %d s with %d counterexamples found: %d jobs not "
+                                          "explored" % (time.time() - t0, ncex, len(pending))))
+                pool.terminate()
+                pending = []
             if pending:
                 time.sleep(0.05)
     results.sort(key=lambda r: r["name"])
@@ -428,7 +440,8 @@ def finish(pid, prop, tier, seed, results, wall, partial=False):
     for r in results:
         cfg = r["cfg"]
         if r["error"]:
-            problems.append("job %s crashed: %s" % (r["name"], r["error"][:400]))
+            problems.append(r["error"] if r["name"] == "(early stop)" else
+                            "job %s crashed: %s" % (r["name"], r["error"][:400]))
             continue
         st = r["stats"]
         is_control = bool(cfg.get("control"))
